@@ -51,6 +51,12 @@ func canon(f float64) string {
 	return hx.F64(f)
 }
 
+// crashText renders a recovered panic in printable ASCII on one line (unit strings in panic
+// messages may hold arbitrary bytes).
+func crashText(e any) string {
+	return strings.ReplaceAll(strconv.QuoteToASCII(fmt.Sprint(e)), " ", "_")
+}
+
 func sameF(a, b float64) bool { return canon(a) == canon(b) }
 
 // ---------------------------------------------------------------- generators
@@ -63,7 +69,7 @@ var sepsAll = []string{"/", "*", "-", " ", "\t", " ", " ", "\xff", "\xc2", "\
 // no white space (a unit inside a benchmark line is one field)
 var sepsNoSpace = []string{"/", "*", "-", "\xff", "\xc2", "\xe2\x80", "_", "//", "*/", "/-", "/*", "--"}
 
-var fixedUnits = []string{"ns/op", "MB/s", "B/op", "allocs/op", "sec/op", "B/s", "ns", "MB", "ns/ns", "MB/MB", "ns*MB", "ns-MB/s", "op/ns",
+var fixedUnits = []string{"ns*MB*ns*MB*ns*MB*ns*MB*ns*MB*ns*MB", "ns-ns-ns-ns-ns-ns-ns/MB", "ns/op", "MB/s", "B/op", "allocs/op", "sec/op", "B/s", "ns", "MB", "ns/ns", "MB/MB", "ns*MB", "ns-MB/s", "op/ns",
 	"ns/op*ns", "ns/MB*ns/ns", "MB-MB-MB", "ns-ns-ns-ns", "/ns", "*ns", "-ns", "ns-", "ns/", "ns*", "nsMB", "MBns", "ns/op ", " ns/op", "MB/op",
 	"ns op", "ns\xc2", "\xc2ns", "n/s", "s", "", "x", "ns/sec", "sec-ns", "MB/s/ns*MB"}
 
@@ -173,7 +179,7 @@ func tidyCase(v float64, u string) {
 	defer func() {
 		if e := recover(); e != nil {
 			hx.Printf("case %d kind=tidy v=%s unit=%s iu=- iv=- tag=crash\n", id, hx.F64(v), hx.HexS(u))
-			hx.Printf("crash %d Tidy panicked: %v\n", id, e)
+			hx.Printf("crash %d Tidy panicked: %s\n", id, crashText(e))
 			id++
 		}
 	}()
@@ -285,7 +291,7 @@ func fileCase(lines []fileLine, queries []string, pats []string) {
 	defer func() {
 		if e := recover(); e != nil {
 			hx.Printf("%s ivals=- tag=crash\n", caseHead)
-			hx.Printf("crash %d reader/filter panicked: %v\n", id, e)
+			hx.Printf("crash %d reader/filter panicked: %s\n", id, crashText(e))
 			id++
 		}
 	}()
@@ -540,7 +546,7 @@ func histCase(files [][]histLine, fkind, pat string) {
 	defer func() {
 		if e := recover(); e != nil {
 			hx.Printf("%s ivals=- tag=crash\n", head)
-			hx.Printf("crash %d reader/filter panicked: %v\n", id, e)
+			hx.Printf("crash %d reader/filter panicked: %s\n", id, crashText(e))
 			id++
 		}
 	}()
@@ -587,6 +593,10 @@ func histCase(files [][]histLine, fkind, pat string) {
 	shape := "ok"
 	var rd *benchfmt.Reader
 	var freshF, keptF, afterF []string
+	// aliasing: the strings of every Value as delivered are kept (struct copy, no Clone) and compared
+	// at the end of the history with their rendering at delivery time
+	var heldV []benchfmt.Value
+	var heldS []string
 	// what the Reader's backing array holds (mechanism tag only): slot i last held a rescaled value
 	var slotRescaled []bool
 	curLen := 0
@@ -617,6 +627,8 @@ func histCase(files [][]histLine, fkind, pat string) {
 			var fr []string
 			for i, v := range res.Values {
 				fr = append(fr, valStr(v))
+				heldV = append(heldV, v)
+				heldS = append(heldS, valStr(v))
 				changed := tidiedName(f[li].meas[i].unit) != f[li].meas[i].unit
 				if changed {
 					tagSet["edit"] = true
@@ -680,10 +692,17 @@ func histCase(files [][]histLine, fkind, pat string) {
 		tags = []string{"trivial"}
 	}
 	fresh := strings.Join(freshF, "|")
+	alias := "ok"
+	for i, v := range heldV {
+		if valStr(v) != heldS[i] {
+			alias = fmt.Sprintf("CHANGED-%d", i)
+			break
+		}
+	}
 	hx.Printf("%s ivals=%s tag=%s\n", head, fresh, strings.Join(tags, "+"))
-	hx.Printf("obs %d shape=%s fresh=%s\n", id, shape, fresh)
+	hx.Printf("obs %d shape=%s alias=%s fresh=%s\n", id, shape, alias, fresh)
 	hx.Printf("obs %d kept=%s after=%s\n", id, strings.Join(keptF, "|"), strings.Join(afterF, "|"))
-	hx.Printf("sobs %d rep=%s base=1\n", id, fresh)
+	hx.Printf("sobs %d rep=%s base=1 alias=%s\n", id, fresh, alias)
 	hx.Printf("sobs %d kept=%s\n", id, strings.Join(keptF, "|"))
 	id++
 }
@@ -743,8 +762,8 @@ func genHist(r *hx.Rand) {
 		if r.Chance(1, 3) {
 			if u := hx.Pick(r, pool); isPlainASCII(u) {
 				lit = u
-				if r.Bool() {
-					lit = tidiedName(u)
+				if t := tidiedName(u); r.Bool() && isPlainASCII(t) {
+					lit = t
 				}
 			}
 		}
@@ -773,6 +792,78 @@ func genHist(r *hx.Rand) {
 	}
 }
 
+
+// ---------------------------------------------------------------- kind=seq
+
+// A history of benchunit.Tidy calls in ONE process on units the package-level cache has never
+// seen (a per-process counter makes them fresh): every call must equal the stateless specification
+// whatever was tidied before it. Families: a unit and its own tidied form in both orders; more than
+// 300 distinct slow-path units and then the early ones again; long units (many edits: the edits
+// slice outgrows its initial capacity, the parser object walks many tokens).
+var freshCounter int
+
+func freshTok() string {
+	freshCounter++
+	return fmt.Sprintf("q%dx%d", shard, freshCounter)
+}
+
+func seqCase(v float64, units []string, tag string) {
+	if !mine() {
+		return
+	}
+	head := fmt.Sprintf("case %d kind=seq v=%s units=%s", id, hx.F64(v), hx.HexListS(units))
+	defer func() {
+		if e := recover(); e != nil {
+			hx.Printf("%s iseq=- tag=crash\n", head)
+			hx.Printf("crash %d Tidy panicked: %s\n", id, crashText(e))
+			id++
+		}
+	}()
+	var out []string
+	for _, u := range units {
+		tv, tu := benchunit.Tidy(v, u)
+		out = append(out, canon(tv)+":"+hx.HexS(tu))
+	}
+	o := joinOr(out, ",")
+	hx.Printf("%s iseq=%s tag=%s\n", head, o, tag)
+	hx.Printf("obs %d seq=%s\n", id, o)
+	hx.Printf("sobs %d seq=%s base=1\n", id, o)
+	id++
+}
+
+func genSeq(r *hx.Rand, i int) {
+	v := genVal(r)
+	q := freshTok()
+	switch i % 4 {
+	case 0: // written form first, then its tidied form (which still needs the slow path), then both again
+		u, tu := "ns/ns-"+q, "sec/ns-"+q
+		seqCase(v, []string{u, tu, u, tu}, "pairfwd")
+	case 1: // tidied form first
+		u, tu := "MB*"+q+"/MB", "B*"+q+"/MB"
+		seqCase(v, []string{tu, u, tu, u}, "pairrev")
+	case 2: // > 300 distinct slow-path units, then the early ones again
+		var us []string
+		n := 300 + r.Intn(40)
+		for k := 0; k < n; k++ {
+			us = append(us, hx.Pick(r, []string{"ns-", "MB-", "ns/ns-", "x/MB*ns-", "nsec-MB-"})+q+"k"+strconv.Itoa(k))
+		}
+		us = append(us, us[:20]...)
+		us = append(us, us[n-5:n]...)
+		seqCase(v, us, "many")
+	default: // long units: 5..40 components
+		var b strings.Builder
+		n := 5 + r.Intn(36)
+		for k := 0; k < n; k++ {
+			if k > 0 {
+				b.WriteString(hx.Pick(r, []string{"*", "-", "/", "*", " "}))
+			}
+			b.WriteString(hx.Pick(r, []string{"ns", "MB", "ns", "MB", "sec", "nsec", q}))
+		}
+		u := b.String()
+		seqCase(v, []string{u, u + "-" + q, u}, "long")
+	}
+}
+
 // ---------------------------------------------------------------- main
 
 func main() {
@@ -793,7 +884,7 @@ func main() {
 		}
 		defer func() {
 			if e := recover(); e != nil {
-				hx.Printf("crash %d Tidy panicked: %v\n", id, e)
+				hx.Printf("crash %d Tidy panicked: %s\n", id, crashText(e))
 			}
 		}()
 		a, _ := benchunit.Tidy(1, "ns")
@@ -869,6 +960,12 @@ func main() {
 	nf := hx.N(6000, 120000)
 	for i := 0; i < nf; i++ {
 		genFile(r)
+	}
+
+	// histories of Tidy calls on fresh units (package-level cache)
+	ns := hx.N(400, 8000)
+	for i := 0; i < ns; i++ {
+		genSeq(r, i)
 	}
 
 	// histories on one Reader with in-place filtering and Reset
